@@ -18,7 +18,7 @@ RULE = (
     "point or one assembly order; distinct = (n, n_chunks[, order]); non-trivial = at least one pair (n>=2)"
 )
 ASSUMPTIONS = ["thetas in the assembly workload are harness stubs with prescribed predictions plus real sparse-combo samples"]
-REQUIRED = {"cli_score_assemblies": {"quick": 8, "thorough": 60}, "chunk_files_overwritten": {"quick": 200, "thorough": 3000}, "partition_grid_points": {"quick": 500, "thorough": 1800}, "assemblies_checked": {"quick": 150, "thorough": 2000}, "refusals_checked": {"quick": 50, "thorough": 500}, "large_matrix_roundtrips": {"quick": 8, "thorough": 80}, "cli_matrices_checked": {"quick": 6, "thorough": 50}}
+REQUIRED = {"assemblies_by_random_bracketing": {"quick": 60, "thorough": 800}, "cli_score_assemblies": {"quick": 8, "thorough": 60}, "chunk_files_overwritten": {"quick": 200, "thorough": 3000}, "partition_grid_points": {"quick": 500, "thorough": 1800}, "assemblies_checked": {"quick": 150, "thorough": 2000}, "refusals_checked": {"quick": 50, "thorough": 500}, "large_matrix_roundtrips": {"quick": 8, "thorough": 80}, "cli_matrices_checked": {"quick": 6, "thorough": 50}}
 N_EXH = {"quick": 14, "thorough": 22}  # grid sizes 548 / 1900 points
 
 
@@ -167,6 +167,15 @@ def run_shard(rec, tier, seed, shard, nshards):
                     snap = [(m_.current_index, kit.raw_bytes(m_.row_indices[: m_.current_index]), kit.raw_bytes(m_.col_indices[: m_.current_index]), kit.raw_bytes(m_.values[: m_.current_index])) for m_ in mats]
                     comb = DC.ChunkedDistanceMatrix.concat(mats)
                     dense = comb.to_dense()
+                    if len(mats) > 2 and rng.random() < 0.5:
+                        # "any order" includes any bracketing: a random binary tree of combine() calls over the same
+                        # chunks (a pairwise reduction), whose operands are themselves results of combine()
+                        parts = [DC.ChunkedDistanceMatrix.load(files[int(c)]) for c in order]
+                        while len(parts) > 1:
+                            i_ = int(rng.integers(0, len(parts) - 1))
+                            parts[i_ : i_ + 2] = [parts[i_].combine(parts[i_ + 1])]
+                        rec.count("assemblies_by_random_bracketing")
+                        rec.check(parts[0].is_complete() and kit.bytes_equal(parts[0].to_dense(), dense1), "C07/assembly/order-dependent", lambda: "a pairwise (tree-shaped) reduction of the chunks in order %r does not give the single-chunk matrix (n=%d,n_chunks=%d)" % (order, n, n_chunks), dict(w, order=[int(x) for x in order]))
                     if len(mats) > 1:
                         after = [(m_.current_index, kit.raw_bytes(m_.row_indices[: m_.current_index]), kit.raw_bytes(m_.col_indices[: m_.current_index]), kit.raw_bytes(m_.values[: m_.current_index])) for m_ in mats]
                         rec.check(after == snap, "C07/assembly/input-chunk-changed", "combining chunks changed one of the input chunks", dict(w, order=[int(x) for x in order]))
